@@ -96,6 +96,14 @@ def gen(tier, rng):
     from vlib.annexb_util import big_scripts
     for sc in big_scripts(rng, tier):
         cases.append("!annexbig A " + sc)
+    # readers dropped in the middle of a NAL (no reset, no further start code) with 100 bytes .. 1 MiB buffered, each followed
+    # in the same process by an ordinary stream through a new reader: nothing of the abandoned NAL shows up there
+    for n in (100, 1000, 1023, 1024, 1025, 1500, 3000, 4096, 10000, 65536, 100000, 1 << 20):
+        k = max(1, n // 3)
+        cases.append("!annexbig A s,d5,s,d%d,|,d%d,|,d%d,a" % (k, k, n - 2 * k))
+        s0, p0, nals = make_stream(rng)
+        cases.append("pipeline - %s B" % ",".join(hx(x) for x in partition(rng, serialise(rng, nals))))
+        cases.append("!annexbig A s,d7,|,d3,s,d9,r")
     return cases
 
 
